@@ -320,6 +320,14 @@ fn run_single_program(
                 if idx_cmd > 0 {
                     libs::close(pipes[idx_cmd - 1].0);
                 }
+                if idx_cmd == pipes_count {
+                    // the last stage is the one whose parent side reads and
+                    // closes the capture pipes
+                    for fds in [fds_capture_stdout, fds_capture_stderr].iter().copied().flatten() {
+                        libs::close(fds.0);
+                        libs::close(fds.1);
+                    }
+                }
                 *cmd_result = CommandResult::error();
                 return 0;
             }
